@@ -583,9 +583,8 @@ func writeEvidence(o CheckOpts, res *CheckResult, viol int) {
 		"a panicking path ends the execution (partial correctness) except in functions marked safe, where every panic is an obligation",
 		"termination is proved only where a decreases clause is given")
 	for _, n := range res.Notes {
-		if strings.HasPrefix(n, "channels:") {
+		if strings.HasPrefix(n, "channels:") || strings.HasPrefix(n, "go statements:") {
 			assumptions = append(assumptions, n)
-			break
 		}
 	}
 	cov := map[string]interface{}{
